@@ -536,6 +536,10 @@ def gen_mixed_portfolio(rng, kinds=ALL_KINDS, g=None, n_assets=(2, 6), n_nodes=(
             if fuel in nds:
                 assets.append({'type': 'SimpleContract', 'name': 'mkt_' + fuel, 'nodes': [fuel], 'price': key, 'min_cap': 0., 'max_cap': 200. * f, 'extra_costs': 0., 'wacc': 0.})
             assets.append(gen_plant(rng, g, ('pl%d' if ty == 'plant' else 'chp%d') % j, nds, f, 'p0', chp=(ty == 'chp'), simple=rng.random() < 0.4, dict_costs=rng.random() < 0.3))
+            if window and rng.random() < 0.3:
+                # a plant with a lifetime of its own inside / across the horizon
+                s_, e_, _k = gen_window(rng, g, kinds=['inside', 'inside', 'straddle_start', 'straddle_end', 'start_only', 'end_only'])
+                assets[-1]['start'] = s_; assets[-1]['end'] = e_
         elif ty == 'scaled':
             base = pick(rng, ['storage', 'contract', 'transport'])
             if base == 'storage':
@@ -592,7 +596,7 @@ def gen_mixed_portfolio(rng, kinds=ALL_KINDS, g=None, n_assets=(2, 6), n_nodes=(
             base = pick(rng, ['contract', 'contract', 'transport'])
             if base == 'transport' and nn > 1:
                 n1, n2 = [nodes[int(i)] for i in rng.permutation(nn)[:2]]
-                a = gen_transport(rng, g, 'pe%d' % j, n1, n2, f, cost_key=None, window=False, take=False)
+                a = gen_transport(rng, g, 'pe%d' % j, n1, n2, f, cost_key=(key if rng.random() < 0.5 else None), window=False, take=False)
             else:
                 a = gen_contract(rng, g, 'pe%d' % j, pick(rng, nodes), f, key, window=False, take=False, dict_caps=False)
             a['periodicity'] = per
